@@ -29,8 +29,8 @@ def c16_sequences(max_len):
         yield from itertools.product(ALPHABET, repeat=n)
 
 
-def c16_params(seq, fault, seed):
-    return {"seed": seed, "program": list(seq), "fault": fault, "fault_p": 0.0, "n_parts": 2, "request_timeout_ms": 1500,
+def c16_params(seq, fault, seed, fault_p=0.0):
+    return {"seed": seed, "program": list(seq), "fault": fault, "fault_p": fault_p, "n_parts": 2, "request_timeout_ms": 1500,
             "retry_backoff_ms": 50, "settle": True, "marker_delay": 0.0}
 
 
@@ -53,7 +53,9 @@ def c07_program(rng: random.Random, tier="quick"):
                 prog.append(f"send:{rng.randrange(3)}")
             elif r < 0.7:
                 spread = rng.choice(["0+1", "0+1+2", "1+2"]) if rng.random() < 0.3 else str(rng.randrange(3))
-                prog.append(f"burst:{spread}:{rng.choice([2, 5, 12])}")
+                # "spray": the sends are not awaited, the call that ends the transaction may overtake some of them
+                kind = "spray" if rng.random() < 0.25 else "burst"
+                prog.append(f"{kind}:{spread}:{rng.choice([2, 5, 12, 30] if kind == 'spray' else [2, 5, 12])}")
             elif r < 0.85:
                 prog.append(f"offsets:{rng.randint(1, 500)}")
             elif r < 0.95:
